@@ -82,7 +82,9 @@ def dresultTag : DResult → String
 
 /-- C17 clause shared by all zone-text commands. -/
 def oracleC17 (impl : String) : Option String :=
-  if impl = "panic" || impl.startsWith "panic" then some "fail:C17:panic" else none
+  if impl = "panic" || impl.startsWith "panic" then some "fail:C17:panic"
+  else if impl = "abort" then some "fail:C17:process-aborted-stack-or-allocation"
+  else none
 
 /-- `ztext.parse <hex-text>`: Impl ≡ Model on arbitrary text; oracle = C17 only. -/
 def cmdZtextParse (hex impl : String) : Result :=
